@@ -42,7 +42,7 @@ func TestMain(m *testing.M) {
 		if p := os.Getenv("VERIF_RACELOG"); p != "" {
 			raceLogPrefix = p
 		} else if exe, err := os.Executable(); err == nil {
-			dir, derr := os.MkdirTemp("", "c12-race-")
+			dir, derr := os.MkdirTemp(os.Getenv("VERIF_SCRATCH"), "c12-race-") // the driver removes its scratch directory
 			if derr == nil {
 				prefix := filepath.Join(dir, "race")
 				env := append(os.Environ(), "VERIF_RACELOG="+prefix, "GORACE=log_path="+prefix+" "+os.Getenv("GORACE"))
@@ -74,35 +74,57 @@ func raceReports() string {
 // process stall monitor: real-time verdicts are suspended for intervals in which this process was not
 // scheduled properly (a loaded machine must not turn into a violation)
 
+type lagSample struct {
+	at  time.Time
+	lag time.Duration
+}
+
 var (
 	stallMu sync.Mutex
-	stalls  [][2]time.Time
+	lags    []lagSample // heartbeat wake-ups that came more than 2 ms late
 )
 
+// heartbeat sleeps 5 ms at a time and records how late it is woken: a direct measurement of how long a
+// runnable goroutine of this process currently waits for a processor (machine load, GOMAXPROCS 1 with
+// dozens of busy goroutines, race-detector slowdown).
 func heartbeat() {
+	const period = 5 * time.Millisecond
 	last := time.Now()
 	for {
-		time.Sleep(5 * time.Millisecond)
+		time.Sleep(period)
 		now := time.Now()
-		if now.Sub(last) > 150*time.Millisecond {
+		if lag := now.Sub(last) - period; lag > 2*time.Millisecond {
 			stallMu.Lock()
-			stalls = append(stalls, [2]time.Time{last, now})
+			lags = append(lags, lagSample{now, lag})
+			if len(lags) > 1<<16 {
+				lags = append(lags[:0], lags[1<<15:]...)
+			}
 			stallMu.Unlock()
 		}
 		last = now
 	}
 }
 
-func stalled(from, to time.Time) bool {
+// maxLag returns the largest scheduling delay observed between from and to (window widened by 100 ms).
+func maxLag(from, to time.Time) time.Duration {
+	from, to = from.Add(-100*time.Millisecond), to.Add(100*time.Millisecond)
 	stallMu.Lock()
 	defer stallMu.Unlock()
-	for _, s := range stalls {
-		if s[0].Before(to) && s[1].After(from) {
-			return true
+	var m time.Duration
+	for i := len(lags) - 1; i >= 0; i-- {
+		s := lags[i]
+		if s.at.Before(from) {
+			break
+		}
+		if s.at.Add(-s.lag).Before(to) && s.lag > m {
+			m = s.lag
 		}
 	}
-	return false
+	return m
 }
+
+// stalled: the process was visibly not keeping up in the interval; real-time verdicts are suspended.
+func stalled(from, to time.Time) bool { return maxLag(from, to) > 50*time.Millisecond }
 
 // ---------------------------------------------------------------------------------------------
 // script
@@ -125,7 +147,7 @@ const (
 	kNow         qKind = iota // answer at once
 	kDelay                    // answer after delay (well inside the timeout)
 	kReorder                  // answer after the next `after` queries on the same connection (or maxHold)
-	kTwice                    // answer, and the same answer again (back to back, or after delay)
+	kTwice                    // the same answer 2..6 times back to back, or twice `delay` apart
 	kNever                    // no answer
 	kUnknownOnly              // an answer carrying an id nobody asked with, no real answer
 	kLate                     // answer after the deadline has passed
@@ -145,6 +167,8 @@ const (
 	nNoiseKinds
 )
 
+var noiseNames = [...]string{"pong", "unknown-constructor", "tiny", "short-answer", "unknown-id-answer", "auth-nonce"}
+
 type callScript struct {
 	kind  qKind
 	delay time.Duration
@@ -156,8 +180,10 @@ type callScript struct {
 }
 
 type closeFault struct {
-	atQuery int // the n-th query the server receives (over all connections) closes the connection it came on
-	rst     bool
+	atQuery   int // the n-th query the server receives (over all connections) closes the connection it came on
+	rst       bool
+	burst     int // unrelated packets written immediately before the close
+	burstKind noiseKind
 }
 
 type scenario struct {
@@ -170,6 +196,7 @@ type scenario struct {
 	idleClose int // 0 none, 1 one connection, 2 all connections (after the callers have finished)
 	idleRST   bool
 	redial    []adnlsrv.DialPlan // fate of the first redials after the initial connections
+	storm     bool               // many callers that keep sending (mostly unanswered) queries around a burst + RST
 }
 
 func (sc *scenario) hasFault() bool { return len(sc.closes) > 0 || sc.idleClose != 0 }
@@ -194,6 +221,9 @@ func (sc *scenario) kindCounts() map[qKind]int {
 
 func (sc *scenario) String() string {
 	var sb strings.Builder
+	if sc.storm {
+		sb.WriteString("storm ")
+	}
 	fmt.Fprintf(&sb, "scenario %d: key seed %#x, %d connection(s), timeout %v, %d callers x %d calls; answers:", sc.id, sc.keySeed, sc.workers, sc.timeout, len(sc.calls), len(sc.calls[0]))
 	kc := sc.kindCounts()
 	for k, name := range kindNames {
@@ -203,6 +233,9 @@ func (sc *scenario) String() string {
 	}
 	for _, f := range sc.closes {
 		fmt.Fprintf(&sb, "; close(rst=%v) at query %d", f.rst, f.atQuery)
+		if f.burst > 0 {
+			fmt.Fprintf(&sb, " after a burst of %d %s packets", f.burst, noiseNames[f.burstKind])
+		}
 	}
 	if sc.idleClose != 0 {
 		fmt.Fprintf(&sb, "; idle close of %s (rst=%v)", [...]string{"", "one connection", "all connections"}[sc.idleClose], sc.idleRST)
@@ -214,12 +247,21 @@ func (sc *scenario) String() string {
 }
 
 // expandCaller derives the script of one caller from one drawn word.
-func expandCaller(seed uint64, n int, timeout time.Duration) []callScript {
+func expandCaller(seed uint64, n int, timeout time.Duration, storm bool) []callScript {
 	r := core.NewSplitMix(seed)
 	out := make([]callScript, n)
 	blocking := 0
 	for i := range out {
 		q := &out[i]
+		if storm {
+			// senders that are spread over time and mostly wait out their timeout
+			if r.Intn(10) < 7 {
+				q.kind = kNever
+			}
+			q.pre, q.preUS = 2, r.Intn(3000)
+			q.size = r.Intn(40)
+			continue
+		}
 		switch w := r.Intn(22); {
 		case w < 10:
 			q.kind = kNow
@@ -234,8 +276,10 @@ func expandCaller(seed uint64, n int, timeout time.Duration) []callScript {
 			q.after = 1 + r.Intn(5)
 		case w < 19:
 			q.kind = kTwice
-			if r.Intn(2) == 0 {
-				q.delay = time.Duration(r.Intn(20)) * time.Millisecond
+			if r.Intn(3) == 0 {
+				q.delay = time.Duration(1+r.Intn(20)) * time.Millisecond
+			} else {
+				q.after = 2 + r.Intn(5) // copies
 			}
 		case w < 20:
 			q.kind = kNever
@@ -293,6 +337,25 @@ func queryPayload(scn, caller, call, size int) []byte {
 
 const freshCaller = 0xffff // calls issued by the harness itself (recovery probes, growth phase)
 
+func drawStorm(c *core.Ctx, id int) *scenario {
+	sc := &scenario{id: id, keySeed: c.U64("keyseed"), storm: true, workers: c.Range("connections", 1, 2), timeout: 300 * time.Millisecond}
+	callers := c.Range("callers", 32, 64)
+	per := c.Range("calls", 8, 12)
+	for i := 0; i < callers; i++ {
+		sc.calls = append(sc.calls, expandCaller(c.U64("caller.seed"), per, sc.timeout, true))
+	}
+	f := closeFault{atQuery: c.Range("close.at", callers, callers*per/2), rst: true, burst: c.Range("burst", 300, 3000)}
+	f.burstKind = noiseKind(c.Choose("burst.kind", int(nNoiseKinds)))
+	if core.NewSplitMix(c.U64("burst.auth")).Intn(3) != 0 {
+		f.burstKind = nAuthNonce
+	}
+	sc.closes = []closeFault{f}
+	if c.Bool("redial") {
+		sc.redial = []adnlsrv.DialPlan{{Kind: adnlsrv.DialReset}}
+	}
+	return sc
+}
+
 func drawScenario(c *core.Ctx, id int, withFault bool) *scenario {
 	sc := &scenario{id: id, keySeed: c.U64("keyseed")}
 	sc.workers = c.Range("connections", 1, 4)
@@ -306,12 +369,17 @@ func drawScenario(c *core.Ctx, id int, withFault bool) *scenario {
 		per = 600 / callers
 	}
 	for i := 0; i < callers; i++ {
-		sc.calls = append(sc.calls, expandCaller(c.U64("caller.seed"), per, sc.timeout))
+		sc.calls = append(sc.calls, expandCaller(c.U64("caller.seed"), per, sc.timeout, false))
 	}
 	if withFault {
 		total := callers * per
 		for i, n := 0, c.Range("closes", 0, 2); i < n; i++ {
-			sc.closes = append(sc.closes, closeFault{atQuery: c.Range("close.at", 1, total), rst: c.Bool("close.rst")})
+			f := closeFault{atQuery: c.Range("close.at", 1, total), rst: c.Bool("close.rst")}
+			if core.NewSplitMix(c.U64("close.burst")).Intn(3) == 0 {
+				f.burst = c.Range("burst", 1, 2000)
+				f.burstKind = noiseKind(c.Choose("burst.kind", int(nNoiseKinds)))
+			}
+			sc.closes = append(sc.closes, f)
 		}
 		sc.idleClose = c.Intn("idleclose", 3)
 		if len(sc.closes) == 0 && sc.idleClose == 0 {
@@ -478,11 +546,28 @@ func (st *srvState) onQuery(cn *adnlsrv.Conn, id [32]byte, body []byte) {
 	}
 	st.mu.Unlock()
 	if fault != nil {
-		if fault.rst {
-			cn.Reset()
-		} else {
-			cn.Close()
+		end := func() {
+			if fault.rst {
+				cn.Reset()
+			} else {
+				cn.Close()
+			}
 		}
+		if fault.burst == 0 {
+			end()
+			return
+		}
+		// the burst is written while the connection keeps serving queries; the close follows it
+		frames := make([][]byte, fault.burst)
+		for i := range frames {
+			frames[i] = st.noisePacket(fault.burstKind, body)
+		}
+		st.pending.Add(1)
+		go func() {
+			defer st.pending.Add(-1)
+			cn.WriteFrames(frames...)
+			end()
+		}()
 		return
 	}
 	q := callScript{kind: kNow}
@@ -517,7 +602,7 @@ func (st *srvState) onQuery(cn *adnlsrv.Conn, id [32]byte, body []byte) {
 		})
 	case kTwice:
 		if q.delay == 0 {
-			st.answer(cn, rec, id, body, 2)
+			st.answer(cn, rec, id, body, q.after)
 		} else {
 			st.answer(cn, rec, id, body, 1)
 			st.later(q.delay, func() { st.answer(cn, rec, id, body, 1) })
@@ -590,32 +675,65 @@ func (o *outcome) notef(format string, args ...any) {
 	o.notes = append(o.notes, fmt.Sprintf(format, args...))
 }
 
+// liteclientStacks summarises the goroutines that are inside tongo/liteclient: identical stacks (after
+// dropping arguments and pc offsets) are counted, blocked-looking ones come first.
 func liteclientStacks() string {
-	buf := make([]byte, 4<<20)
+	buf := make([]byte, 16<<20)
 	buf = buf[:runtime.Stack(buf, true)]
-	var keep []string
-	for _, g := range strings.Split(string(buf), "\n\n") {
-		if strings.Contains(g, "tongo/liteclient") || strings.Contains(g, "c12.") {
-			lines := strings.Split(g, "\n")
-			if len(lines) > 14 {
-				lines = lines[:14]
-			}
-			keep = append(keep, strings.Join(lines, "\n"))
-		}
-	}
-	// identical stacks collapse
 	count := map[string]int{}
 	var order []string
-	for _, k := range keep {
-		body := k[strings.Index(k, "\n")+1:]
-		if count[body] == 0 {
-			order = append(order, body)
+	for _, g := range strings.Split(string(buf), "\n\n") {
+		if !strings.Contains(g, "tongo/liteclient") {
+			continue
 		}
-		count[body]++
+		lines := strings.Split(g, "\n")
+		state := lines[0]
+		if i := strings.Index(state, "["); i >= 0 {
+			state = strings.TrimSuffix(state[i:], ":")
+			if j := strings.Index(state, ","); j >= 0 { // drop "N minutes"
+				state = state[:j] + "]"
+			}
+		}
+		var frames []string
+		for i := 1; i+1 < len(lines) && len(frames) < 7; i += 2 {
+			fn := lines[i]
+			if strings.HasPrefix(fn, "created by ") {
+				if j := strings.Index(fn, " in goroutine"); j >= 0 {
+					fn = fn[:j]
+				}
+			} else if j := strings.LastIndex(fn, "("); j >= 0 {
+				fn = fn[:j]
+			}
+			loc := strings.TrimSpace(lines[i+1])
+			if j := strings.Index(loc, " +0x"); j >= 0 {
+				loc = loc[:j]
+			}
+			if strings.HasPrefix(fn, "internal/poll.") || strings.HasPrefix(fn, "net.(") && !strings.Contains(fn, "conn).") {
+				continue
+			}
+			frames = append(frames, "    "+fn+"  "+loc[strings.LastIndex(loc, "/")+1:])
+		}
+		key := state + "\n" + strings.Join(frames, "\n")
+		if count[key] == 0 {
+			order = append(order, key)
+		}
+		count[key]++
 	}
+	rank := func(k string) int {
+		switch {
+		case strings.HasPrefix(k, "[chan send"):
+			return 0
+		case strings.HasPrefix(k, "[sync.Mutex.Lock"), strings.HasPrefix(k, "[semacquire"):
+			return 1
+		case strings.HasPrefix(k, "[select"), strings.HasPrefix(k, "[chan receive"):
+			return 3
+		}
+		return 2
+	}
+	sort.SliceStable(order, func(i, j int) bool { return rank(order[i]) < rank(order[j]) })
 	var sb strings.Builder
-	for _, b := range order {
-		fmt.Fprintf(&sb, "%d goroutine(s):\n%s\n\n", count[b], b)
+	for _, k := range order {
+		fmt.Fprintf(&sb, "  %d x %s\n", count[k], k)
 	}
 	return sb.String()
 }
@@ -701,11 +819,11 @@ func runScenario(sc *scenario) *outcome {
 	close(start)
 	done := make(chan struct{})
 	go func() { wg.Wait(); close(done) }()
-	limit := 2*budget + 2*sc.timeout + 45*time.Second
+	limit := 2*budget + 2*sc.timeout + 15*time.Second
 	select {
 	case <-done:
 	case <-time.After(limit):
-		o.violation = fmt.Sprintf("DEADLOCK: the callers of the scenario had not all returned %v after they were started (every call is bounded by the %v timeout); goroutines inside liteclient and the harness:\n%s", limit, sc.timeout, liteclientStacks())
+		o.violation = fmt.Sprintf("DEADLOCK: the callers of the scenario had not all returned %v after they were started (every call is bounded by the %v timeout); goroutines inside liteclient (whole process):\n%s", limit, sc.timeout, liteclientStacks())
 		return o
 	}
 	o.notef("callers finished after %v", time.Since(t0).Round(time.Millisecond))
@@ -751,7 +869,7 @@ func runScenario(sc *scenario) *outcome {
 		}
 		if up.IsZero() {
 			if !stalled(from, time.Now()) {
-				o.violation = fmt.Sprintf("NO RECONNECT: %v after the last connection fault the server still has %d of %d connections; goroutines inside liteclient:\n%s", bound, len(st.srv.Conns()), sc.workers, liteclientStacks())
+				o.violation = fmt.Sprintf("NO RECONNECT: %v after the last connection fault the server still has %d of %d connections; goroutines inside liteclient (whole process):\n%s", bound, len(st.srv.Conns()), sc.workers, liteclientStacks())
 			}
 			return o
 		}
@@ -873,7 +991,10 @@ func (o *outcome) judge(c *core.Ctx) string {
 			}
 			return fmt.Sprintf("LOST QUERY: %s failed with %q; no connection had been disturbed", desc(), r.err)
 		}
-		inTime := !rec.sentAt.IsZero() && rec.sentAt.Sub(r.start) <= sc.timeout/2
+		// "in time" = the client had the answer on its socket with ample time left before the deadline:
+		// 200 ms plus twenty times the scheduling delay the process showed during the call (an answer
+		// crosses about eight goroutine hand-overs inside the client)
+		inTime := !rec.sentAt.IsZero() && sc.timeout-rec.sentAt.Sub(r.start) >= 200*time.Millisecond+20*maxLag(r.start, r.end)
 		if !inTime {
 			if !strings.Contains(r.err.Error(), "timeout") && !disturbed {
 				return fmt.Sprintf("%s: the answer was withheld, the call failed with %q instead of a timeout error", desc(), r.err)
@@ -889,9 +1010,32 @@ func (o *outcome) judge(c *core.Ctx) string {
 			c.Class("excused by a process stall")
 			continue
 		}
-		return fmt.Sprintf("ANSWER LOST: %s failed with %q although the server wrote the answer within half the timeout on a connection that stayed up", desc(), r.err)
+		return fmt.Sprintf("ANSWER LOST: %s failed with %q although the server wrote the answer well before the deadline (scheduling delay during the call at most %v) on a connection that stayed up", desc(), r.err, maxLag(r.start, r.end))
 	}
 	return ""
+}
+
+// knownAuthNonceDeadlock: Connection.handleAuthResponse sends on the unbuffered authCompleteChan while
+// holding the connection mutex. On a connection without an authentication key nobody ever receives from
+// that channel, so an unsolicited tcp.authentificationNonce packet that the old reader goroutine handles
+// while a reconnect is in progress (status Connecting) blocks that goroutine for ever with the mutex held:
+// Send, Status/IsOK and the reconnect itself then block for ever.
+const knownAuthNonceDeadlock = "C12-authnonce-deadlock"
+
+func isAuthNonceDeadlock(v string) bool {
+	if !strings.HasPrefix(v, "DEADLOCK") && !strings.HasPrefix(v, "NO RECONNECT") {
+		return false
+	}
+	// a goroutine blocked in a channel send directly inside handleAuthResponse
+	for _, g := range strings.Split(v, " x [") {
+		if strings.HasPrefix(g, "chan send") {
+			lines := strings.Split(g, "\n")
+			if len(lines) > 1 && strings.Contains(lines[1], "liteclient.(*Connection).handleAuthResponse") {
+				return true
+			}
+		}
+	}
+	return false
 }
 
 func settledGoroutines() int {
@@ -918,7 +1062,13 @@ var batchCheck = &core.Check{Name: "c12/batch", Quick: 6, Thorough: 190, Fn: fun
 	nontrivial := false
 	for i := range scs {
 		withFault := faultBatch && (i == 0 || c.Bool("fault"))
-		sc := drawScenario(c, i, withFault)
+		var sc *scenario
+		if core.NewSplitMix(c.U64("storm")).Intn(8) == 0 {
+			sc = drawStorm(c, i)
+			c.Class("storm scenario")
+		} else {
+			sc = drawScenario(c, i, withFault)
+		}
 		scs[i] = sc
 		key = append(key, sc.String())
 		kc := sc.kindCounts()
@@ -929,8 +1079,11 @@ var batchCheck = &core.Check{Name: "c12/batch", Quick: 6, Thorough: 190, Fn: fun
 		}
 		if sc.hasFault() {
 			c.Class("connection fault")
-			for range sc.closes {
+			for _, f := range sc.closes {
 				c.Class("fault: close at n-th query")
+				if f.burst > 0 {
+					c.Class("fault: burst of " + noiseNames[f.burstKind] + " before the close")
+				}
 			}
 			if sc.idleClose != 0 {
 				c.Class("fault: close while idle")
@@ -996,6 +1149,9 @@ var batchCheck = &core.Check{Name: "c12/batch", Quick: 6, Thorough: 190, Fn: fun
 		totalScenarios.Add(1)
 		totalCalls.Add(int64(len(o.calls)))
 		if v := o.judge(c); v != "" {
+			if isAuthNonceDeadlock(v) && c.Known(knownAuthNonceDeadlock) {
+				continue
+			}
 			return report(o, v)
 		}
 	}
